@@ -244,7 +244,7 @@ static void run(void)
 					put32(in + 4, 0xffffffffu);	/* keep the RIFF size plausible */
 				sim_fault(F_FIELD_EXTREMES);
 			} else if (kind == 0) {
-				static const uint32_t hostile[] = { 0, 1, 15, 16, 17, 18, 19, 20, 38, 39, 40, 41, 42,
+				static const uint32_t hostile[] = { 0, 1, 2, 12, 13, 14, 15, 16, 17, 18, 19, 20, 38, 39, 40, 41, 42,
 					0x7fffffffu, 0x80000000u, 0xffffffe3u, 0xffffffe4u, 0xffffffe5u,
 					0xfffffff0u, 0xfffffffeu, 0xffffffffu, 0x10000u, 0x80000012u };
 				int offs[5] = { 4, off_fmt_size, off_cb_size, off_fact_size, off_data_size };
